@@ -133,6 +133,21 @@ ChainFold(S, e, i, F) ==
     IF i > Len(e.chain) THEN S ELSE ChainFold(ChainStep(S, e.chain[i], e.obs[i], e.k, F), e, i + 1, F)
 
 (***************************************************************************)
+(* Sequences of insertions of keys that are not in the map (extend,        *)
+(* from_iter, the harness's Probe): a fold of InsertNew.  Which elements   *)
+(* an intermediate carry moved is not observable, but every choice among   *)
+(* the keys observed in the main table at the end gives the same final     *)
+(* state, so each carry takes the smallest ones.                           *)
+(***************************************************************************)
+InsStep(acc, k, F) ==
+    UNION {IF Loc(x, k) = "absent" THEN InsertNewPosts(x, k, InsMvN(x, F, k)) ELSE {} : x \in acc}
+RECURSIVE InsFold(_, _, _, _)
+InsFold(S, keys, i, F) == IF i > Len(keys) \/ S = {} THEN S ELSE InsFold(InsStep(S, keys[i], F), keys, i + 1, F)
+KeySeq(objs) == [i \in DOMAIN objs |-> objs[i][1]]
+Distinct(sq) == Cardinality({sq[i] : i \in DOMAIN sq}) = Len(sq)
+AllAbsent(P, sq) == \A i \in DOMAIN sq : Loc(P, sq[i]) = "absent"
+
+(***************************************************************************)
 (* Calls interrupted by an injected panic (C07)                            *)
 (***************************************************************************)
 Gone(P, Q) == (K1(P.M) \cup K1(P.O)) \ (K1(Q.M) \cup K1(Q.O))
@@ -230,6 +245,29 @@ SOp(e) ==
                      D == SlotR(snap, e.d)
                      Dt == HB!Tbl(D.mB, D.mI, D.mC - D.mI)
                  IN Strict("g_clone_from", e, Post(e, e.d) \in CloneFromPosts(S, Dt), <<S, Dt, Post(e, e.d), CloneFromPosts(S, Dt)>>)
+      [] e.op = "Probe" ->
+             (Both(e, s) /\ ~Panicked(e) /\ Hdr.elem # "zst") =>
+                 LET P == Pre(s)
+                     Q == Post(e, s)
+                     ks == KeySeq(e.objs)
+                 IN (Distinct(ks) /\ AllAbsent(P, ks)) =>
+                        Strict("g_probe", e, Q \in InsFold({P}, ks, 1, Q), <<P, Q>>)
+      [] e.op = "Extend" ->
+             \* reserve(hint if empty, else half of it rounded up), then one insert per item
+             (Both(e, s) /\ ~Panicked(e) /\ e.big = 0 /\ Hdr.elem # "zst") =>
+                 LET P == Pre(s)
+                     Q == Post(e, s)
+                     ks == KeySeq(e.items)
+                     empty == P.M = {} /\ P.O = {}
+                     rsv == IF empty THEN e.hint ELSE (e.hint + 1) \div 2
+                 IN (Distinct(ks) /\ AllAbsent(P, ks)) =>
+                        Strict("g_extend", e, Q \in InsFold(ReservePosts(P, rsv), ks, 1, Q), <<rsv, P, Q>>)
+      [] e.op = "FromIter" ->
+             (~Panicked(e) /\ e.big = 0 /\ Hdr.elem # "zst" /\ Alive(e.st, s) /\ IsFull(PostR(e, s))) =>
+                 LET Q == Post(e, s)
+                     ks == KeySeq(e.items)
+                 IN Distinct(ks) =>
+                        Strict("g_from_iter", e, Q \in InsFold({Empty(HB!WithCapB(e.hint))}, ks, 1, Q), <<e.hint, Q>>)
       [] e.op = "Par" ->
              \* MCPar: the main table is driven to completion before the old table is started
              (Both(e, s) /\ ~Panicked(e) /\ IsFull(PreR(s))) =>
